@@ -126,9 +126,7 @@ theorem replayRecs_intact (recount : Str → Nat → Str) (recs : List Rec)
       else if (sessionsOf ls).contains r.1 then none
       else some r) = some := by
     funext r
-    by_cases hc : (sessionsOf ls).contains r.1 = true
-    · simp [hc]
-    · simp [hc]
+    by_cases hc : (sessionsOf ls).contains r.1 = true <;> simp
   rw [hf, List.filterMap_some]
 
 theorem ghostTree_agree (g : Ghost) (l r : Commit) (tracked : List Str)
